@@ -177,6 +177,12 @@ def probeApply (w : Worker) (p : Probe) (now : Nat) : Worker × List Uuid :=
     if p.stamp != w.updated then (w, [])
     else w.applyFresh p now
 
+/-- The probe result is actually used to update `running`/`starting`: the run probe succeeded,
+the result is not the "nothing booted, nothing seen, nothing tracked" case, and the worker has
+not been updated since the probe began (the stale-probe guard). -/
+def probeFresh (w : Worker) (p : Probe) (now : Nat) : Bool :=
+  !(w.drainStep p now).probeFailed p && p.stamp == (w.drainStep p now).updated
+
 end Worker
 
 /-- `*Pool` as far as container bookkeeping is concerned. -/
